@@ -324,6 +324,49 @@ fn eval_caught(op: &Op, sh: &Shared, rs: &RunShared, tl: &mut ThreadObjs) -> (Ou
     }
 }
 
+// ---- watchdog for isolated evaluations: a library call that never returns even when it runs alone on
+// a fresh thread (a lock held across a call-back that re-enters the library, a wait nobody ends) would
+// block the harness for ever. The watchdog turns it into a stall report and exit code 4, like a
+// stall inside a scenario.
+
+/// (replay path, result path, property, seed, gen cfg as JSON text): where to report; set by the shard driver
+pub static REF_STALL_SINK: Mutex<Option<(String, String, String, u64, String)>> = Mutex::new(None);
+/// the isolated evaluation in flight: (deadline, single-operation plan as JSON text, operation key)
+static REF_WATCH: Mutex<Option<(std::time::Instant, String, String)>> = Mutex::new(None);
+
+fn ref_watchdog_start() {
+    static STARTED: std::sync::Once = std::sync::Once::new();
+    STARTED.call_once(|| {
+        std::thread::Builder::new()
+            .name("ref-watchdog".into())
+            .spawn(|| loop {
+                std::thread::sleep(Duration::from_millis(500));
+                let due = REF_WATCH.lock().ok().and_then(|g| g.as_ref().filter(|w| std::time::Instant::now() > w.0).map(|w| (w.1.clone(), w.2.clone())));
+                if let Some((plan_json, key)) = due {
+                    let what = format!("the isolated evaluation of `{}` (one thread, nothing else running) never returned", key);
+                    eprintln!("STALL: {}", what);
+                    if let Ok(g) = REF_STALL_SINK.lock() {
+                        if let Some((replay, result, property, seed, cfgj)) = g.as_ref() {
+                            let v = format!(
+                                "{{\"invariant\":\"c20/no-deadlock-every-call-returns\",\"thread\":0,\"op_index\":0,\"op\":{:?},\"expected\":\"every library call returns\",\"observed\":{:?}}}",
+                                key, what
+                            );
+                            let rj = format!(
+                                "{{\"format\":1,\"property\":{:?},\"engine\":\"sched\",\"build\":\"plain\",\"seed\":{},\"run_index\":-1,\"gen_cfg\":{},\"violation\":{},\"plan\":{},\"original_plan\":{},\"prelude_run_indices\":[]}}",
+                                property, seed, cfgj, v, plan_json, plan_json
+                            );
+                            let _ = std::fs::write(replay, rj);
+                            let res = format!("{{\"stalled\":{{\"replay\":{:?},\"what\":{:?},\"index\":-1,\"detail\":{}}}}}", replay, what, v);
+                            let _ = std::fs::write(result, res);
+                        }
+                    }
+                    std::process::exit(4);
+                }
+            })
+            .ok();
+    });
+}
+
 /// evaluate every not-yet-known operation of the plan in isolation: fresh OS thread, fresh
 /// contexts, nothing else running, the reference copy of the shared tables
 fn ensure_refs(plan: &SchedPlan, refs: &mut Refs, ref_shared: &Shared) {
@@ -343,6 +386,20 @@ fn ensure_refs(plan: &SchedPlan, refs: &mut Refs, ref_shared: &Shared) {
     for (k, op) in &missing {
         // true isolation: a brand-new OS thread (fresh thread-locals), brand-new contexts and
         // views, the reference copy of the shared tables, nothing else running
+        ref_watchdog_start();
+        {
+            let single = SchedPlan {
+                focus: plan.focus.clone(),
+                threads: vec![ThreadPlan { ops: vec![op.clone()], ..Default::default() }],
+                views_b: plan.views_b.clone(),
+                views_s: plan.views_s.clone(),
+                nshared_ctx: plan.nshared_ctx,
+                yield_mask: 0,
+                schedule: Schedule::Sequential,
+            };
+            let secs = std::env::var("PP_SIM_STALL_SECS").ok().and_then(|v| v.parse().ok()).unwrap_or(120u64);
+            *REF_WATCH.lock().unwrap() = Some((std::time::Instant::now() + Duration::from_secs(secs), single.to_json().to_string(), k.clone()));
+        }
         let r = std::thread::scope(|s| {
             s.spawn(|| {
                 let rs = RunShared::new(0, o_needs_prepared(op));
@@ -358,6 +415,7 @@ fn ensure_refs(plan: &SchedPlan, refs: &mut Refs, ref_shared: &Shared) {
             .join()
             .unwrap()
         });
+        *REF_WATCH.lock().unwrap() = None;
         results.push((k.clone(), r));
     }
     for (k, r) in results {
